@@ -28,8 +28,27 @@ M = "clashfinder"
 
 
 def atom_types(chk) -> Dict[str, float]:
-    """AtomType member -> radius, read from the radius property by abstract evaluation per member value."""
+    """AtomType member -> radius: the radius property evaluated per member (checks/c17e.EnumS: the body is interpreted
+    with self = the member, whatever its shape - if/elif chain, dispatch table, match); the path-folding reading below
+    is the fallback."""
     repo = chk.repo
+    try:
+        from checks import c17e
+
+        fi0 = repo.func(M, "AtomType.radius")
+        chk.note_function(fi0)
+        enum = c17e.EnumS(repo, M, "AtomType")
+        out0: Dict[str, float] = {}
+        for m in enum.members:
+            try:
+                out0[m.name] = m.radius
+            except c17e.Raised:
+                out0[m.name] = None
+        return out0
+    except AnalysisError:
+        raise
+    except Exception:
+        pass
     members = {k: Folder(repo, M).fold(v) for k, v in repo.enum_members(M, "AtomType").items()}
     fi = repo.func(M, "AtomType.radius")
     chk.note_function(fi)
@@ -67,7 +86,7 @@ def run(chk) -> None:
         "a function of one feature of the definition (closed world). main is evaluated the same way on a representative clash list with tokens for chains, residues and atoms: listed lines and "
         "CSV rows = the clashes, every atom under its own residue (key and record of a filed clash agree on orientation), printed maxima = maxima of the listed lines (maxima in the middle of file and sort order; "
         "residue pairs that differ in one identity component), same order in both outputs, independence of set iteration order; the evaluated call of find_clashes binds every option parameter to the switch of the same name "
-        "(positional or keyword); the structure is read the same way with and without the switches and find_clashes receives every residue of it that it would consider (no option reaches the parser, the report of one clash list does not depend on the switches); read_metadata receives an open file. Accumulator updates read what they write; no truthiness default on occupancies. The pinned-form rules run only when a function cannot be evaluated."
+        "(positional or keyword); the structure is read the same way with and without the switches and find_clashes receives every residue of it that it would consider (no option reaches the parser, the report of one clash list does not depend on the switches); read_metadata receives an open file; main is evaluated once per metadata class (every category present, each asked category absent, no category at all as for a PDB-format file, rows without the items): the CSV rows are exactly the clashes in each (csv-metadata-total). Accumulator updates read what they write; no truthiness default on occupancies. The pinned-form rules run only when a function cannot be evaluated."
     )
     chk.trusted = ["CPython ast", "scipy KDTree.query_pairs returns every pair within the radius exactly once"]
     chk.assumptions = ["float distance arithmetic is not decided", "atom typing by first letter of the name as coded (C/N/O/P)"]
@@ -408,7 +427,7 @@ MANIFEST_ENTRY = {
     "text": "Static decision on the current source of clashfinder.py: the KD-tree radius (evaluated for all 32 option combinations) is at least r_a + r_b + extra for every pair of atom types, so no accepted pair is outside the search; "
     "the pairs listed by find_clashes, evaluated on one representative per input class (type pair x distance cell, residue/nucleotide configuration, two different residues that share chain/number/insertion code, name equality, occupancy class "
     "incl. 0.0, missing and a sum of 0.99, atoms of no known type) for all 32 option combinations, are exactly those of the van-der-Waals definition (extra = 0.5 iff MolProbity; each option guards exactly one filter; occupancy rule and sum; "
-    "atoms considered; record roles; each pair once) and nothing else skips a pair (closed world of the atomic conditions); the evaluated call of find_clashes in main binds every option parameter to the switch of the same name and hands over the whole structure of the input file (no option reaches the parser; main does not filter what find_clashes returns); running maxima "
+    "atoms considered; record roles; each pair once) and nothing else skips a pair (closed world of the atomic conditions); the evaluated call of find_clashes in main binds every option parameter to the switch of the same name and hands over the whole structure of the input file (no option reaches the parser; main does not filter what find_clashes returns); the CSV rows are the clashes whatever metadata categories / items the file has; running maxima "
     "read the entry they write; occupancy defaults only for None; report and CSV list exactly the clashes found, every atom under its own residue (the key a clash is filed under and the stored record agree on the order of the pair), the maxima "
     "printed per residue pair and per chain pair equal the maxima of the atom clashes listed below the heading (largest sum in the middle of file and sort order, residue pairs that differ in one identity component only), both outputs in the "
     "same order and independent of set iteration order. Completeness of a search radius is a for-all-pairs claim decided here for all type pairs at once.",
